@@ -52,6 +52,26 @@ PROPS = {
         "assumptions": ROUTER_ASSUMPTIONS,
         "min_outcomes": 6,
     },
+    "C05": {
+        "level": "model_checking",
+        "technique": "exhaustive enumeration of all request histories up to a depth on one connection through the real read/handle/send code under a controlled executor; differential oracle against fresh connections; the session-loop model is bound to the real Session::manage by replaying histories over loopback TCP in lock-step",
+        "engine": "vmc",
+        "level_text": "History-space exploration: all sequences of length <=4 (quick) / <=5 (thorough) over 16 requests (hit, 404, two params, bodies of 3 bytes / NUL-leading / NUL in the middle / ending exactly at and one past the 1 KiB buffer / 2 KiB, custom+repeated headers, context-setting fang, HEAD, long query, malformed, short PUT, Connection: close), one segment per request, on a single RawConn reused through the harness copy of the session loop; every response must be byte-identical to the one the request gets alone on a fresh connection, nothing may follow Connection: close, no stall at a request boundary. All histories of length <=2 (quick) / <=2 plus a fifth of length 3 (thorough) are replayed against the real Session::manage over TCP; model and implementation must produce the same bytes and the same close outcome (mismatch = exit 2).",
+        "level_note": "Trusted: the 15-line harness copy of the session loop as a model of session/mod.rs (bound by the TCP replays), the scripted reader's lock-step delivery (next segment only when the loop is Pending in a read), the clock hook. Handlers that panic are outside the alphabet.",
+        "jobs": {"quick": 8, "thorough": 16},
+        "assumptions": COMMON_ASSUMPTIONS + ["loopback TCP in the sandbox behaves like TCP (segments written with TCP_NODELAY after the peer has drained its queue arrive as separate reads)"],
+        "min_outcomes": 3,
+    },
+    "C06": {
+        "level": "model_checking",
+        "technique": "exhaustive enumeration of read segmentations (all cut sets up to a size) of request streams, delivered in lock-step to the real read/handle/send code under a controlled executor; oracle: same responses as the per-request segmentation; bound to the real Session::manage by TCP replay",
+        "engine": "vmc",
+        "level_text": "Schedule-space exploration, deviation-bounded by the number of cuts: 110 streams (10 single requests, 100 ordered pairs; bodies none / plain / NUL-leading / spanning the buffer end) x every cut set of size 0 and 1 (all positions) and 2 (all positions on streams <=160 bytes, structural neighbourhoods otherwise), thorough also 3 cuts on streams <=120 bytes. Oracle: response sequence and end state equal those of the one-segment-per-request delivery. 0/1-cut (thorough: also 2-cut) schedules of the shortest streams are replayed over real TCP against Session::manage.",
+        "level_note": "Trusted: as C05. Known findings (one read() per request head: split heads are refused, coalesced requests dropped) are recorded in known_findings.json by cut location x symptom; wrong-response / stall / panic / extra-response symptoms are never masked.",
+        "jobs": {"quick": 16, "thorough": 16},
+        "assumptions": COMMON_ASSUMPTIONS + ["loopback TCP in the sandbox behaves like TCP"],
+        "min_outcomes": 4,
+    },
     "C12": {'level': 'exploration',
      'technique': 'exhaustive enumeration of configurations x token edit families through the real request path against an independent JWT reference (bounded '
                   'model checking of an input/configuration space)',
